@@ -41,6 +41,14 @@ def one(c, src, tag, files=None):
     if impl['outcome'][0] == 'success' and impl['file'] and len(impl['file']) > 24 and prefill is None: STALE[0] = impl['file']
     progdiff.compare(c, src, impl, model)
     recs = oracle(c, src, impl, model)
+    if impl['outcome'][0] == 'success' and prefill is None and c.evaluations % 4 == 1:
+        # the options that only concern failures (-k) or the console (-v, --color) leave a successful output untouched
+        for flags in (['-k'], ['-v'], ['-k', '-v', '--color', 'always']):
+            other = core.run_cli(src, files=files, extra_args=flags)
+            if other['pcap'] != impl['file'] or other['rc'] != 0:
+                c.violation('pcap-option:' + ' '.join(flags), 'with %s a successful run writes a different file (%s bytes vs %d)' % (' '.join(flags), len(other['pcap']) if other['pcap'] is not None else None, len(impl['file'] or b'')),
+                            dict(src=src.decode('utf-8', 'replace'), flags=flags))
+        c.count('option-variants')
     key = None
     if recs:
         key = (len(recs), sum(r[1] for r in recs), hash(src))
